@@ -87,6 +87,41 @@ class TheCheck(Check):
             ops.append(op)
         return ops
 
+    def long_line_stream(self):
+        """lines longer than the parser's line buffer (MAX_LINESIZE - 1 = 4095 bytes): a comment of any length
+        is ignored as a whole - also when the text behind the 4095th byte looks like a registered directive -,
+        a directive or section tag that does not fit is an error of that line; lengths 4094, 4095, 4096,
+        8190, 8191, 10000; at top level and inside sections; with and without final newline (render_ac)"""
+        rng = self.rng
+        ops = []
+        A = 2
+        t = [Opt(b"Sec", 1, True, A, 0), Opt(b"Any", G.TAKEALL, True, 0, 0), Opt(b"Flag", 1 | G.A1_BOOL, True, 0, A)]
+        tails = [b"Any injected 1", b"Flag on", b"<Sec x>", b"</Sec>", b"Nope", b"Any \"open"]
+        for total in (4094, 4095, 4096, 8190, 8191, 10000):
+            for place in ("top", "sec", "sec2"):
+                for tail in tails:
+                    c = Node("comment", text=b" c")
+                    c.longtail, c.longat = tail, total - len(tail)
+                    body = [Node("opt", b"Any", [Arg(b"1", "bare")]), c, Node("opt", b"Any", [Arg(b"2", "single")])]
+                    doc = {"top": body,
+                           "sec": [Node("sec", b"Sec", [Arg(b"s", "bare")], body + [Node("opt", b"Flag", [Arg(b"Off", "bare")])], b"Sec")],
+                           "sec2": [Node("sec", b"Sec", [Arg(b"s", "bare")],
+                                         [Node("sec", b"Sec", [Arg(b"t", "bare")], body, b"Sec")], b"Sec"), Node("opt", b"Any")]}[place]
+                    ops.append(self.ac(t, 0, False, doc))
+                # a directive of that length: arguments `ab` separated by one blank
+                for style in ("bare", "double"):
+                    n = max(1, (total - 3) // 3)
+                    args = [Arg(b"ab", "bare") for _ in range(n)]
+                    if style == "double":
+                        args = [Arg(b"a" * (total - 6), "double")]
+                    d = Node("opt", b"Any", args)
+                    body = [Node("opt", b"Any", [Arg(b"1", "bare")]), d, Node("opt", b"Any", [Arg(b"2", "bare")])]
+                    doc = {"top": body,
+                           "sec": [Node("sec", b"Sec", [Arg(b"s", "bare")], body, b"Sec")],
+                           "sec2": [Node("sec", b"Sec", [Arg(b"s", "bare")], [Node("sec", b"Sec", [Arg(b"t", "bare")], body, b"Sec")], b"Sec")]}[place]
+                    ops.append(self.ac(t, 0, False, doc))
+        return ops
+
     def systematic(self):
         rng = self.rng
         ops = []
@@ -170,6 +205,7 @@ class TheCheck(Check):
                           "take counts x argument counts, scopes x placements, unknown x flags"))
         sts.append(Stream("ac-defcb-refusing", self.defcb_refusing_stream(1500 if quick else 30000), nomodel=True,
                           note="implementation vs oracle only (no refusing default handler in the model)"))
+        sts.append(Stream("ac-long-lines", self.long_line_stream(), note="comments / directives of 4094..10000 bytes"))
         sts.append(Stream("ac-tokenize", self.tokenizer_stream(5000 if quick else 60000)))
         for name, pmut, n in (("ac-conforming", 0.0, 5000 if quick else 60000), ("ac-offending", 0.12, 8000 if quick else 100000)):
             ops = []
